@@ -33,18 +33,6 @@ Lemma burst_len_table m : 0 <= m < 16 ->
                         else if (12 <=? m) && (m <=? 15) then Some 296%nat else None).
 Proof. exact (burst_tab_spec m). Qed.
 
-(* version-0 Rx datagrams of the message codec: accepted unless GMSK with legacy padding *)
-Lemma acc_rx0_current legacy m b : Trxd.gen_rx legacy m = Trxd.Ok b -> Trxd.r_ver m = 0 ->
-  (match Trxd.r_burst m with Some bs => Forall (fun s => -128 <= s <= 127) bs | None => True end) ->
-  exists fn tn rssi toa bs, Trxd.r_fn m = Some fn /\ Trxd.r_tn m = Some tn /\ Trxd.r_rssi m = Some rssi /\ Trxd.r_toa m = Some toa /\
-    Trxd.r_burst m = Some bs /\
-    (legacy = false \/ length bs = 444%nat ->
-     decode true pdu_v0_rx b = Ok (rx0_fields tn fn rssi toa (TrxdRxRT.usbits bs) (legacy_pad legacy 0), length b)).
-Proof.
-  intros Hg Hv Hs. destruct (acc_rx0 legacy m b Hg Hv Hs) as [fn [tn [rssi [toa [bs [E1 [E2 [E3 [E4 [E5 [Hl Hacc]]]]]]]]]]].
-  exists fn, tn, rssi, toa, bs. repeat (split; [assumption|]). intros Hc. apply Hacc. apply acc_rx0_rule; assumption.
-Qed.
-
 (* ---------------------------------------------------------------- non-vacuity *)
 Definition ex_sub1 : rxsub := {| s_tn := 3; s_batch := 1; s_shadow := 0; s_trxn := 5; s_nope := 1; s_mod := 0; s_tsc := 0;
                                  s_rssi := -90; s_toa := -1; s_cir := 100; s_bits := [] |}.
